@@ -295,6 +295,7 @@ def check(ctx):
     # ---- C12.6 writers ---------------------------------------------------------------------------------------------
     o = Ob('C12.6', 'K1', 'utilization and both lists are written only by the scan and the finish handler; available_capacity = capacity - utilization')
     obs.append(o)
+    dv.check_defaults(ctx, o, [('Maintainer', '__init__', 'capacity')])
     for attr, owners in (('_utilization', {'__init__', 'try_working_requests', '_finish_work_order'}), ('_capacity', {'__init__'})):
         for s in inv.attr_stores(P, attr):
             if s.cls is not None and s.cls.name in ('Buffer',):
